@@ -116,6 +116,10 @@ func scenarios(tier string) []vlib.Scenario {
 	add(params{Seq: []string{"a", "c"}, QoS: message.QoSReliable, P: 1, Stream: true})
 	add(params{Seq: []string{"a", "a", "b"}, QoS: message.QoSReliable, P: 1})
 	add(params{Seq: []string{"a", "c", "f"}, QoS: message.QoSReliable, P: 1})
+	// an outage (link cut at quiescence, resume) between the items
+	for _, s := range seqs([]string{"a", "b", "c"}, 2) {
+		add(params{Seq: s, QoS: message.QoSReliable, F: 1})
+	}
 	if tier == "thorough" {
 		for _, s := range seqs([]string{"a", "b", "c", "e"}, 4) {
 			if len(s) == 4 {
@@ -631,6 +635,18 @@ func (w *world) oracleC04(v *vlib.Verdict, dev bool) {
 		}
 		if d.Close == nil {
 			v.Fail("C04.close", "no-close-request", "Close returned nil without a close request")
+		}
+	}
+	// the harness cuts the link only at quiescence (nothing in flight): an acknowledgement that was still
+	// buffered, or whose write failed on the dead link, is owed after the resume - the client knows it was not sent
+	if w.closeErr == nil && w.cuts > 0 && len(d.Resumes) > 0 {
+		for k, n := range consumed {
+			switch {
+			case acked[k] == 0:
+				v.Fail("C04.results", fmt.Sprintf("lost-with-outage/dev=%v", dev), "chunk (upstream %v, seq %d) was returned by a read, the link was cut at quiescence and the stream resumed, but its acknowledgement never reached the broker", k.up, k.seq)
+			case acked[k] > n:
+				v.Fail("C04.results", fmt.Sprintf("duplicated-with-outage/dev=%v", dev), "chunk (upstream %v, seq %d) was returned by %d reads but acknowledged %d times across the resume", k.up, k.seq, n, acked[k])
+			}
 		}
 	}
 	for _, e := range w.B.Strays {
